@@ -4,7 +4,8 @@
   `blocks` correspondence. A shared lemma file: property files for C01 / C05 / C08 / C09 cite these.
   Not a property of its own (no entry in properties_cfg.py).
 -/
-import GM.Proof.BlocksAtx
+import GM.Proof.BlocksNoPanicAll
+import GM.Proof.BlocksWF0
 
 namespace GM.Props.Blocks
 open GM GM.Text GM.Blocks GM.Spec
@@ -149,21 +150,117 @@ theorem atx_open_total (src : Bytes) (s : St) (c : RCur) (h : RI src s.r c) (par
     OKL (fun a s' => ∃ r', s'.r = r' ∧ RI src r' c ∧ s'.pc = s.pc ∧ a.2 = stNoChildren) (atxOpen parent s) :=
   atxOpen_okl h parent
 
+/-! ### Round 3: no panic for whole runs, for EVERY byte string -/
+
+/-- **C01, block phase — no Go panic, for every byte string.** `GM.Blocks.run src` (the block phase of `parser.Parse`:
+    `parseBlocks / openBlocks / closeBlocks` with the ten default block parsers) always ends normally with a block
+    tree: no index / slice / nil / type-assertion / explicit panic is reachable, none of the fuelled loops runs out,
+    and the contract monitor of the `goto retry` loop never fires. Every candidate site listed in
+    notes/status_blocks.md is covered: `node.LastChild().ChildCount()` (list.go:169,191) and `lastChild.(*ast.ListItem)`
+    — a List on `openedBlocks` always has a last child that is a ListItem; `lastOffset(node.Parent())` (list_item.go:62)
+    — a ListItem on `openedBlocks` sits directly below its parent List; `reader.AdvanceAndSetPadding(-1,-1)`
+    (list_item.go:75-76) — listParser.Continue has closed the list in exactly the cases where IndentPosition is −1;
+    the context-key assertions (setext_headings.go:86, fcode_block.go:73,110) — a setext heading / fenced code block
+    on `openedBlocks` has its key set; `closeBlocks(-1,-1)` (parser.go:1002) and `lastBlock.Parser.Close` on the zero
+    Block (parser.go:977) — RequireParagraph is only answered with a paragraph on top of the stack, which keeps its
+    lines and parent; `line[len(line)-1]` (fcode_block.go:84) — a closing fence has ≥ 3 bytes; `Segments.Unshift` /
+    `SetSliced` on nil and every `line[i]`, `line[a:b]` of the ten parsers. Proof: the state invariant
+    `GM.Blocks.L.StableL` (reader `RI`; node store `NodesOK`, `KidsOK`; stack `BlockOK`, `Leafy`, `ChainedO`) through
+    `GM.Blocks.L.runL`; per-parser contracts in GM.Proof.BlocksSpec*. -/
+theorem no_panic (src : Bytes) : ∃ s, GM.Blocks.run src = .ok s := by
+  obtain ⟨s, h, _⟩ := run_ok_all src
+  exact ⟨s, h⟩
+
+/-- no outcome other than a tree: in particular no Go run-time panic of any kind -/
+theorem run_never_errs (src : Bytes) (e : Panic) : GM.Blocks.run src ≠ .error e := by
+  obtain ⟨s, h, _⟩ := run_ok_all src
+  rw [h]; intro h'; cases h'
+
+/-- **The BlockParser contract (parser.go:496-505) is kept at every `goto retry`** — the model's contract monitor
+    never fires: a block quote and a list item consume at least their marker byte (`blockquote_process_total_progress`,
+    `list_item_open_total_progress`), and a list, which consumes nothing, is never opened directly inside a list
+    (so `retryMeasure` decreases there, too). For every byte string. -/
+theorem monitor_never_fires (src : Bytes) : GM.Blocks.run src ≠ .error .pre := run_never_errs src .pre
+
+/-- **C05(c), block phase, range clause** (`lines_in_range`): every line segment of every node the block phase builds
+    — reachable from the Document or not — satisfies `0 ≤ start ≤ stop ≤ len(source)` and `padding ≥ 0`; moreover a
+    node whose `lines.values` is nil has no lines. For every byte string. -/
+theorem lines_in_range (src : Bytes) (s : St) (h : GM.Blocks.run src = .ok s) :
+    ∀ n ∈ s.nodes, (∀ t ∈ n.lines, 0 ≤ t.start ∧ t.start ≤ t.stop ∧ t.stop ≤ src.length ∧ 0 ≤ t.padding) ∧
+      (n.linesNil = true → n.lines = []) := by
+  obtain ⟨s', h', hn⟩ := run_ok_all src
+  rw [h] at h'; cases h'
+  intro n hm
+  exact ⟨fun t ht => (hn n hm).lines t ht, (hn n hm).nil⟩
+
+/-- **Every `Open` of the ten default block parsers is total** from the invariant (`LineCtx`: reader invariant `RI`, a
+    current line, `BlockOffset` an index of it, `NodesOK`; `KidsOK`: children of Lists are ListItems), with the contract
+    `OpenPostW`: where the cursor is afterwards, that the stack is untouched, what the new node looks like, which
+    context key is set, that only containers answer HasChildren and then consume a byte (a list excepted). -/
+theorem open_total (src : Bytes) (bp : BP) (parent : Nat) (s : St) (c : RCur) (hc : LineCtx src s c) (hk : KidsOK s) :
+    OKL (fun a s' => L.OpenPostW src bp parent s c a s') (bpOpen bp parent s) :=
+  L.openAllW (lsp_all src) bp parent s c hc hk
+
+/-- **Every `Close` of the ten default block parsers is total** on a block that satisfies `BlockOK`, and keeps the
+    store invariants (`ClosePost`). -/
+theorem close_total (src : Bytes) (bp : BP) : CloseSpec src bp := L.closeAll src bp
+
+/-- **`Continue` of the eight list-free parsers is total** (`ContSpec`); for the two list parsers see
+    `list_continue_total` / `list_item_continue_total`, which need the list hypotheses the driver proof supplies. -/
+theorem continue_total (src : Bytes) (bp : BP) (h : bp ≠ .list ∧ bp ≠ .listItem) : ContSpec src bp :=
+  (specs_notList src).cont bp h
+
+/-- **listItemParser.Open: no panic and PROGRESS** (the list item's half of "the contract monitor never fires"): when
+    it answers HasChildren the cursor has passed at least the marker byte. -/
+theorem list_item_open_total_progress (src : Bytes) (parent : Nat) (s : St) (c : RCur) (h : LineCtx src s c)
+    (hk : li_ListKidsOK s parent) :
+    OKL (fun a s' => ∃ c', RI src s'.r c' ∧ PadOK c' ∧ c.p ≤ c'.p ∧ (a.1 = none → c' = c) ∧
+        (a.2.hasChildren = true → c.p < c'.p) ∧
+        s'.pc.opened = s.pc.opened ∧ s'.pc.blockOffset = s.pc.blockOffset ∧ s'.pc.tmpPara = s.pc.tmpPara ∧
+        s'.pc.fence = s.pc.fence ∧
+        (a.1 = none → s'.nodes = s.nodes) ∧
+        (∀ id, a.1 = some id → id = s.nodes.length ∧ (nd s parent).kind = .list ∧
+            ∃ n, s'.nodes = s.nodes ++ [n] ∧ n.kind = .listItem ∧ n.children = [] ∧ n.lines = [] ∧
+              n.linesNil = true ∧ n.parent = none))
+      (listItemOpen parent s) :=
+  listItemOpen_okl src parent s c h hk
+
+/-- **listItemParser.Continue: no panic** when its parent list has just continued (`li_ListContinued`: listParser.Continue
+    did not see `indent < offset` in a situation where it answers Close) — `IndentPosition` is then never −1. -/
+theorem list_item_continue_total (src : Bytes) (node : Nat) (s : St) (c : RCur) (h : RI src s.r c) (hpad : PadOK c)
+    (hlt : c.p < src.length) (p : Nat) (hp : (nd s node).parent = some p) (hk : li_ListKidsOK s p)
+    (hoff : 0 ≤ li_lastOff s p) (hlist : li_ListContinued src s c node p) :
+    OKL (fun st s' => ∃ c', RI src s'.r c' ∧ PadOK c' ∧ c.p ≤ c'.p ∧ s'.nodes = s.nodes ∧
+        s'.pc.opened = s.pc.opened ∧ s'.pc.tmpPara = s.pc.tmpPara ∧ s'.pc.fence = s.pc.fence ∧
+        (st.cont = true → st.hasChildren = true))
+      (listItemContinue node s) :=
+  listItemContinue_okl src node s c h hpad hlt p hp hk hoff hlist
+
+/-- **The whole-run theorem for the list-free fragment, from parser contracts alone** (the generic driver proof
+    `GM.Blocks.run_okl`, which needs no list invariant): sources without `-`, `*`, `+` and digits. Subsumed by
+    `no_panic`; kept because its proof (GM.Proof.BlocksDriver) is the readable core of the list-aware one. -/
+theorem no_panic_list_free (src : Bytes) (h : ListFree src) : ∃ s, GM.Blocks.run src = .ok s := by
+  obtain ⟨s, hs, _⟩ := run_ok_listFree src h
+  exact ⟨s, hs⟩
+
 /-! ### statements kept visible but NOT proved (decidable / executable; checked input by input) -/
 
-/-- **C05(c), block phase** (`lines_in_range`, `lines_increasing`): every line segment of every block the
-    block phase builds satisfies `0 ≤ start ≤ stop ≤ len`, `padding ≥ 0`, and a block's lines increase.
-    NOT PROVED. It is evaluated by the driver (`blocks lines`) on the model's tree for every source of the
-    correspondence, and by the Go oracle on the real tree. Missing for a proof: the strong reader invariant
-    (`RAbs` of GM.Proof.Reader) through the driver loop, which needs the stack invariant "a list item's
-    parent list precedes it in `openedBlocks`" to exclude `Advance(-1)` in list_item.go:75-76. -/
+/-- **C05(c), block phase, with the order clause** (`lines_in_range` + `lines_increasing`): in addition to
+    `lines_in_range` (PROVED above) a block's lines do not overlap and increase. The order clause is NOT PROVED. It is
+    evaluated by the driver (`blocks lines`) on the model's tree for every source of the correspondence, and by the Go
+    oracle on the real tree. Missing for a proof: the per-line protocol as an invariant — "every line of every node
+    ends at or before the start of the current source line, until that node receives its (single) line for this
+    line" — threaded through the same contracts (`OpenPost`, `ContPost`) that carry `NodesOK` now. -/
 def LinesInRange (src : Bytes) : Prop :=
   ∀ s, GM.Blocks.run src = .ok s → allLinesOK src s = true
 
-/-- **C01, block phase — no panic** for whole runs: NOT PROVED (termination is; no-panic is proved entry point by
-    entry point above: blockquote.process, paragraph Open/Continue/Close, thematic break Open). What composing
-    them needs is listed in notes/status_blocks.md. -/
-def NoPanic (src : Bytes) : Prop := ∃ s, GM.Blocks.run src = .ok s
+/-- **What the inline phase assumes about the lines of the blocks it visits** (`WF0` of GM.Props.Inlines: non-empty
+    list, every line non-empty and inside the source, padding 0, no ForceNewline, increasing), stated for every
+    inline-bearing node (`!IsRaw()` and `Lines().Len() > 0`: Paragraph, Heading, TextBlock — parser.go:1152-1163) of
+    the final store. NOT PROVED; `GM.Proof.BlocksWF0.allInlineWF0` evaluates it (exhaustive strings ≤ 7 over an
+    8-symbol alphabet in the model and against the real parser: no counterexample). Missing: the order clause as for
+    `LinesInRange`, plus "a closed paragraph's lines are non-empty with padding 0" (trim-left of a non-blank line). -/
+def InlineLinesWF0 (src : Bytes) : Prop := GM.Proof.BlocksWF0.BlocksEstablishWF0 src
 
 /-- **C08 on block trees** (`quote_prefix_simulation`), stated, NOT PROVED in general: for a tab- and CR-free,
     non-blank source, the block tree of the source with `"> "` in front of every line (`quotePrefix`) is a
